@@ -15,6 +15,7 @@ package main
 
 import (
 	"bytes"
+	"context"
 	"crypto/md5"
 	"encoding/json"
 	"fmt"
@@ -28,6 +29,7 @@ import (
 	"strconv"
 	"strings"
 	"sync"
+	"time"
 
 	"net/url"
 
@@ -110,6 +112,7 @@ import (
 	"strconv"
 	"strings"
 	"sync"
+	"time"
 )
 
 type drvResp struct {
@@ -118,16 +121,27 @@ type drvResp struct {
 	Panic string
 }
 
-func drvCall(mux *http.ServeMux, target string) (r drvResp) {
-	w := httptest.NewRecorder()
-	req := httptest.NewRequest("GET", target, nil)
-	defer func() {
-		if p := recover(); p != nil {
-			r = drvResp{Code: w.Code, Body: w.Body.String(), Panic: fmt.Sprint(p)}
-		}
+func drvCall(mux *http.ServeMux, target string) drvResp {
+	// the handler runs in its own goroutine: one that never answers (a lock that is not given back,
+	// a wait on itself) is a failure of the request, not of the driver
+	done := make(chan drvResp, 1)
+	go func() {
+		w := httptest.NewRecorder()
+		req := httptest.NewRequest("GET", target, nil)
+		defer func() {
+			if p := recover(); p != nil {
+				done <- drvResp{Code: w.Code, Body: w.Body.String(), Panic: fmt.Sprint(p)}
+			}
+		}()
+		mux.ServeHTTP(w, req)
+		done <- drvResp{Code: w.Code, Body: w.Body.String()}
 	}()
-	mux.ServeHTTP(w, req)
-	return drvResp{Code: w.Code, Body: w.Body.String()}
+	select {
+	case r := <-done:
+		return r
+	case <-time.After(20 * time.Second):
+		return drvResp{Panic: "handler did not answer within 20 s"}
+	}
 }
 
 func drvOps(toks []string) (res string) {
@@ -574,7 +588,8 @@ func rtRunJob(work string, j *rtJob) error {
 				}
 			}
 		}
-		cmd := exec.Command(filepath.Join(dir, "drv"))
+		ctx, cancel := context.WithTimeout(context.Background(), 10*time.Minute)
+		cmd := exec.CommandContext(ctx, filepath.Join(dir, "drv"))
 		cmd.Dir = dir
 		for _, e := range os.Environ() {
 			if !strings.HasPrefix(e, "GOAT_") {
@@ -589,6 +604,7 @@ func rtRunJob(work string, j *rtJob) error {
 		var stderr bytes.Buffer
 		cmd.Stderr = &stderr
 		out, err := cmd.Output()
+		cancel()
 		lines := strings.Split(strings.TrimRight(string(out), "\n"), "\n")
 		want := 0
 		for _, sq := range r.seqs {
